@@ -152,6 +152,14 @@ func rangesToChunks(
 
 		// An actual measurement:
 		if r.Length > 0 {
+			imageOffset := r.Offset
+			if addressMapper != nil {
+				imageOffset -= PhysAddrBase - image.Size()
+			}
+			if imageOffset > image.Size() || r.Length > image.Size()-imageOffset {
+				logger.Warnf(ctx, "range %v does not fit into the image (of size 0x%X), skipping the chunk", r, image.Size())
+				continue
+			}
 			if chunk != nil {
 				logger.Error(ctx, "has RawBytes and a Range at the same time, supposed to be impossible; dropping the ForcedBytes part")
 			}
